@@ -49,6 +49,28 @@ type SimExec struct {
 	MaxBytes uint64
 	// FinalScript: per SetFinal call, true = fail with an error.
 	FinalScript []bool
+	// stall, when non-nil, makes GetTxs wait until it is closed or the caller's context ends (a mempool query
+	// that hangs and honours its context)
+	stall chan struct{}
+}
+
+// StallGetTxs makes mempool queries hang (until ReleaseGetTxs or the caller's context ends).
+func (e *SimExec) StallGetTxs() {
+	e.mu.Lock()
+	defer e.mu.Unlock()
+	if e.stall == nil {
+		e.stall = make(chan struct{})
+	}
+}
+
+// ReleaseGetTxs ends a stall.
+func (e *SimExec) ReleaseGetTxs() {
+	e.mu.Lock()
+	defer e.mu.Unlock()
+	if e.stall != nil {
+		close(e.stall)
+		e.stall = nil
+	}
 }
 
 func (e *SimExec) maxBytes() uint64 {
@@ -157,6 +179,19 @@ func (n *NodeExec) GetTxs(ctx context.Context) ([][]byte, error) {
 		return nil, err
 	}
 	e := n.e
+	e.mu.Lock()
+	stall := e.stall
+	e.mu.Unlock()
+	if stall != nil {
+		e.mu.Lock()
+		e.Stats["gettxs-stalled"]++
+		e.mu.Unlock()
+		select {
+		case <-stall:
+		case <-ctx.Done():
+			return nil, ctx.Err()
+		}
+	}
 	e.mu.Lock()
 	defer e.mu.Unlock()
 	out := make([][]byte, len(e.mempool))
